@@ -200,30 +200,51 @@ def declared_pairs(fn, mv):
     success contains a test on A (e.g. `if not (around_match and around_match.success)` inside the before/after/since
     branches).  Other combinations are not explored by the scenario slicing (stated bound)."""
     pairs = []
+    # a flag bound once to a test over match locals (`around_found = bool(around_match and around_match.success)`) stands for them
+    alias = {}
+    binds = {}
+    for n in ast.walk(fn):
+        if isinstance(n, ast.Assign) and len(n.targets) == 1 and isinstance(n.targets[0], ast.Name):
+            binds.setdefault(n.targets[0].id, []).append(n.value)
+    for name, vals in binds.items():
+        if len(vals) == 1 and name not in mv and (_names(vals[0]) & set(mv)) \
+                and not any(isinstance(x, ast.Call) and isinstance(x.func, ast.Attribute) and x.func.attr in MATCH_CALLS
+                            for x in ast.walk(vals[0])):
+            alias[name] = _names(vals[0]) & set(mv)
+
+    def mvs(test):
+        out = _names(test) & set(mv)
+        for nm in _names(test):
+            out |= alias.get(nm, set())
+        return out
     for n in ast.walk(fn):
         if not isinstance(n, ast.If):
             continue
-        tn = _names(n.test) & set(mv)
+        tn = mvs(n.test)
         for x in tn:
             for sub in n.body:
                 for m in ast.walk(sub):
                     if isinstance(m, ast.If):
-                        for a in (_names(m.test) & set(mv)) - {x}:
+                        for a in mvs(m.test) - {x}:
                             if (a, x) not in pairs and (x, a) not in pairs:
                                 pairs.append((a, x))
     return pairs
 
 
-def run_walker(fn, facts, on_check, clsname, focus=None):
+def run_walker(fn, facts, on_check, clsname, focus=None, always_slice=False):
     """one walk; when the path budget is exceeded, the function is re-walked scenario by scenario: none, each one, and
     each declared pair of its regex-match locals are allowed to be non-None (the others are assumed None where they
-    are assigned).  Returns (overflowed_after_slicing, scenarios_run)"""
-    w = symx.Walker(fn, facts, on_check, clsname, focus=focus).run()
-    if not w.overflow:
-        return False, 0
+    are assigned).  Returns (overflowed_after_slicing, scenarios_run).
+    always_slice: explore the scenarios whether or not the single walk fits the budget, so that WHICH combinations of matches
+    are judged does not depend on how many paths the current formulation of the function happens to have (combinations the
+    function does not handle together - around + equal - cannot occur for one entity text but are not refutable here)."""
     mv = match_variables(fn)
-    if len(mv) < 3:
-        return True, 0
+    if not (always_slice and len(mv) >= 3):
+        w = symx.Walker(fn, facts, on_check, clsname, focus=focus).run()
+        if not w.overflow:
+            return False, 0
+        if len(mv) < 3:
+            return True, 0
     still = False
     scenarios = [()] + [(v,) for v in mv] + declared_pairs(fn, mv)
     for keep in scenarios:
@@ -1038,7 +1059,7 @@ def _modpair_function(out, idx, mod, cls, fn, src, chk, clsname=None):
         if key not in seen or seen[key] == 1:
             seen.setdefault('first:' + repr(key), (getattr(node, 'lineno', fn.lineno), list(st.conds[-6:])))
 
-    overflow, scen = run_walker(fn, facts, on_check, clsname or (cls.name if cls else None), focus=None)
+    overflow, scen = run_walker(fn, facts, on_check, clsname or (cls.name if cls else None), focus=None, always_slice=True)
     q = (clsname or cls.name) + '.parse'
     if seen.get('suffix-paths'):
         out.observe('%s: %d suffix-modifier paths not judged (CheckBothBeforeAfter is False in every culture)' % (q, seen['suffix-paths']))
